@@ -363,12 +363,16 @@ def confint_term(c, out, b, spec=False, switches=None):
         for a in range(cnt):
             v = float(arr[a])
             mv = "(vget (%s (F:=F) minv_adj %s %d %d obs pred J H) %d)" % (name, sw, n, p, a)
+            # The property is a statement about real numbers: half-width = t * sqrt(variance).  A finite result v
+            # must satisfy |v^2 - t^2 var| <= tol (1 + |t^2 var|)  (v^2 >= 0, so var >= -tol follows);  NaN is the
+            # result exactly when the variance is not positive beyond that same tolerance.  When the exact variance
+            # is 0 (a Jacobian row in the kernel of an indefinite covariance) the binary64 residue may have either
+            # sign, so the implementation legitimately returns a tiny number, 0 or NaN there.
             if math.isnan(v):
-                items.append("negb (qc_pos %s)" % mv)
+                items.append("(negb (qc_pos %s) || qc_close %s (qr 0 1) (tq * tq * %s)%%K)" % (mv, TOL, mv))
             else:
                 sq = core.frac(v) ** 2
-                items.append("(qc_close %s %s (tq * tq * %s)%%K && (qc_pos %s || Qeq_bool 0 %s))" % (
-                    TOL, rq_frac(sq), mv, mv, core.qlit(sq)))
+                items.append("qc_close %s %s (tq * tq * %s)%%K" % (TOL, rq_frac(sq), mv))
     body = "inv_ok_b (F:=F) minv_adj %d (confint_info (F:=F) %s %d %d J H (residual (F:=F) %d obs pred)) && %s" % (
         p, sw, n, p, n, " && ".join(items))
     return ("(match tstat_lookup (%d # %d) %d with Some t => Qeq_bool t %s && (let tq : F := (Q2Qc t, Q2Qc 0) in %s %s) | None => false end)"
@@ -547,7 +551,8 @@ def confint_oracle_disagrees(c, out, with_hess_only=False):
         var = spec_confint_var(np.asarray(c["obs"][b], complex), np.asarray(c["pred"][b], complex), np.asarray(c["J"][b], complex), H)
         got = np.asarray(out["cints"][b], float) ** 2
         ref = t * t * var
-        bad = (np.isnan(got) != (ref < 0)) | (~np.isnan(got) & ~(np.abs(got - ref) <= 1e-8 * (1 + np.abs(ref))))
+        # finite: close to the formula; NaN: only where the variance is not positive beyond the tolerance
+        bad = (np.isnan(got) & (ref > 1e-8 * (1 + np.abs(ref)))) | (~np.isnan(got) & ~(np.abs(got - ref) <= 1e-8 * (1 + np.abs(ref))))
         if np.any(bad):
             return "confint half-widths %r; defining formula t*sqrt(diag(SSE/dof*inv(Re(J^H J)%s))) = %r (batch %s)" % (
                 np.asarray(out["cints"][b]).tolist(), " - sum_n res_n H_n" if H is not None else "",
